@@ -43,6 +43,7 @@
 #include <limits.h>
 #include <fcntl.h>
 #include <sys/wait.h>
+#include <sanitizer/lsan_interface.h>
 #include <dbus/dbus-list.h>
 #include <dbus/dbus-hash.h>
 #include <dbus/dbus-mainloop.h>
@@ -578,6 +579,7 @@ static void child_run (char **ops, int nops, const char *testop, int start_k, in
       if (!failed) { fprintf (out, "N %ld\n", nalloc); fflush (out); break; }
     }
   fprintf (out, "E\n"); fflush (out);
+  free (cur.b); free (a.b); free (tmp.b);
 }
 
 static void crash_summary (const char *path, Buf *o)
@@ -610,6 +612,7 @@ static void bus_case (char **tok, int ntok, Buf *res)
   int d, di, crashes = 0, total_k = 0;
   int gaps[8], ngaps = 0;
   long unfailed_allocs = -1;
+  int lsan_hits = 0;
   char errpath[128];
   sscanf (tok[2], "%d,%d,%d", &lim[0], &lim[1], &lim[2]);
   write_cfg (lim[0], lim[1], lim[2]);
@@ -651,6 +654,8 @@ static void bus_case (char **tok, int ntok, Buf *res)
               snprintf (pipe_name, sizeof pipe_name, "oomh-%d", (int) getpid ());
               write_cfg (lim[0], lim[1], lim[2]);
               child_run (ops, nops, testop, start_k, d, want_base, out);
+              /* everything this child ever allocated for the buses is unreachable by now: let LeakSanitizer look */
+              if (__lsan_do_recoverable_leak_check ()) { fprintf (out, "L\n"); if (getenv ("OOM_H_KEEP_LSAN")) { char cmd[300]; snprintf (cmd, sizeof cmd, "cp %s /tmp/oom_h_lsan.txt", errpath); if (system (cmd)) {} } }
               fflush (out);
               _exit (0);
             }
@@ -662,6 +667,7 @@ static void bus_case (char **tok, int ntok, Buf *res)
               if (l[0] == 'B') in_progress = atoi (l + 2);
               else if (l[0] == 'S') { bput (res, "base=%s", l + 2); want_base = 0; }
               else if (l[0] == 'E') { ended = 1; }
+              else if (l[0] == 'L') { lsan_hits++; }
               else if (l[0] == 'N') { unfailed_allocs = atol (l + 2); }
               else if (l[0] == 'K')
                 {
@@ -701,7 +707,7 @@ static void bus_case (char **tok, int ntok, Buf *res)
   for (i = 0; i < nprobes; i++) free (probes[i]);
   for (i = 0; i < nnames; i++) free (names[i]);
   nprobes = nnames = 0;
-  bput (res, " ## end k=%d crashes=%d allocs=%ld", total_k, crashes, unfailed_allocs);
+  bput (res, " ## end k=%d crashes=%d allocs=%ld lsan=%d", total_k, crashes, unfailed_allocs, lsan_hits);
   free (cur.b); free (prev.b);
 }
 
@@ -893,8 +899,8 @@ static void lib_case (char **tok, int ntok, Buf *res)
       if (!failed) break;
     }
   if (run > 0) bput (res, "%s%d*%s", first ? "" : " ## ", run, prev.b);
-  bput (res, " ## end k=%d", k + 1);
   free (cur.b); free (prev.b);
+  bput (res, " ## end k=%d lsan=%d", k + 1, __lsan_do_recoverable_leak_check () ? 1 : 0);
 }
 
 int main (void)
@@ -919,5 +925,6 @@ int main (void)
       fflush (stdout);
     }
   unlink (cfg_path);
-  return 0;
+  fflush (stdout);
+  _exit (0);
 }
